@@ -57,7 +57,10 @@ class C07(Prop):
         # recorded as KF-C07-1 and kept in its own campaign
         cfg["alphabet"] = "falsy" if falsy else "truthy"
         cfg["vocab"] = [v for v in cfg["vocab"] if v in ("in", "idx", "call", "fp", "cp", "ht", "cmp2")]
-        cfg["n_obj"] = rng.randint(2, 8 if tier == "quick" else 12)
+        # sizes cross the thresholds hard-coded in the library (the cartesian-product warning looks at > 20
+        # memoised values)
+        cfg["n_obj"] = rng.choice([2, 3, 4, 5, 6, 7, 8, 10, 12, 16, 24, 30] if tier == "quick" else
+                                  [2, 3, 4, 5, 6, 8, 10, 12, 16, 20, 24, 33, 48])
         cfg["types"] = rng.choice([["Item"], ["Item", "Gadget"], ["Item", "Gadget", "Widget"]])
         cfg["dups"] = False
         world = G.gen_world(rng, cfg)
@@ -66,7 +69,8 @@ class C07(Prop):
             for o in world["objects"]:
                 if not o["f"]["kids"]:
                     o["f"]["kids"] = [rng.choice(labels)]      # an empty list is a falsy operand value too
-        world["domains"] = {"d0": rng.sample(labels, rng.randint(1, len(labels)))}
+        world["domains"] = {"d0": rng.sample(labels, rng.randint(1, len(labels)) if rng.random() < 0.6
+                                             else len(labels))}
         cg = G.CondGen(rng, cfg, world, ["x"], {})
         conds = [cg.cond(["x"], cfg["depth"]) for _ in range(rng.choice([0, 1, 1, 2]))]
         # single-argument / literal-argument predicates only (one variable)
@@ -90,7 +94,7 @@ class C07(Prop):
             return plan
         ops = []
         for _ in range(rng.randint(1, 4)):
-            k = rng.choice([None, 0, 1, 1, 2, 3, rng.randint(0, n)])
+            k = rng.choice([None, 0, 1, 1, 2, 3, rng.randint(0, n), max(0, n - 1), max(0, n - 2), 21, 22])
             ops.append(["eval", k, rng.choice(["close", "drop", "park"]) if k is not None else "exhaust"])
         if rng.random() < 0.6:
             ops.append(["eval", None, "exhaust"])
